@@ -177,6 +177,10 @@ def random_case(r):
     data = random_data(r, kws)
     if r.random() < 0.1:
         data = r.choice(kws)
+    elif r.random() < 0.03:
+        # thousands of consecutive occurrences that are not delimited (a run of one keyword), then a delimited one
+        k = r.choice(kws)
+        data = k * r.choice([900, 1100, 3000, 20000 // max(1, len(k))]) + r.choice([b" ", b"-", b""]) + k
     kws = list(dict.fromkeys(kws))
     if r.random() < 0.5:
         kws.sort()  # the order registries use: a keyword directly before the longer keywords it is a prefix of
